@@ -22,15 +22,19 @@ pub struct PacketConn<RW: Read + Write> {
     seq: u8,
     // kind of the first failed transport write, reported (again) by the next flush
     write_failed: Option<io::ErrorKind>,
+    // the previous packet was a maximum-size one, so the message still needs a (possibly empty)
+    // shorter packet to end it
+    continued: bool,
 }
 
 impl<W: Read + Write> Write for PacketConn<W> {
     fn write(&mut self, buf: &[u8]) -> io::Result<usize> {
         use std::cmp::min;
-        let left = min(buf.len(), U24_MAX - self.to_write.len());
+        // to_write starts with the 4 header bytes, which do not count towards the payload limit
+        let left = min(buf.len(), U24_MAX + 4 - self.to_write.len());
         self.to_write.extend(&buf[..left]);
 
-        if self.to_write.len() == U24_MAX {
+        if self.to_write.len() == U24_MAX + 4 {
             self.end_packet()?;
         }
         Ok(left)
@@ -59,6 +63,7 @@ impl<RW: Read + Write> PacketConn<RW> {
             to_write: vec![0, 0, 0, 0],
             seq: 0,
             write_failed: None,
+            continued: false,
             rw,
         }
     }
@@ -67,7 +72,7 @@ impl<RW: Read + Write> PacketConn<RW> {
 impl<W: Read + Write> PacketConn<W> {
     fn maybe_end_packet(&mut self) -> io::Result<()> {
         let len = self.to_write.len() - 4;
-        if len != 0 {
+        if len != 0 || self.continued {
             LittleEndian::write_u24(&mut self.to_write[0..3], len as u32);
             self.to_write[3] = self.seq;
             self.seq = self.seq.wrapping_add(1);
@@ -76,6 +81,7 @@ impl<W: Read + Write> PacketConn<W> {
                 self.write_failed.get_or_insert(e.kind());
                 return Err(e);
             }
+            self.continued = len == U24_MAX;
             self.to_write.truncate(4); // back to just header
         }
         Ok(())
